@@ -81,7 +81,7 @@ def byte_size(spelling):
             s, mult = s[:-2], m
             break
     n = _plain_int(s)
-    if n is None or n < 0:
+    if n is None:
         return None
     return n * mult
 
@@ -393,10 +393,8 @@ def handler_plan(o):
                  ("interval", interval), ("delay", delay)):
         if k in o and v is None:
             return ("unjudged", "spelling of %s outside the model" % k)
-    if (old_files or 0) < 0 or (interval or 0) < 0:
-        return ("unjudged", "negative count")
-
     if path in STD:
+        # (a negative size or count is an option that was given, too)
         if max_size or old_files or when or delay or encoding:
             return ("reject", "rotation/delay/encoding on a standard stream")
         if "interval" in o:
@@ -408,6 +406,8 @@ def handler_plan(o):
                     "on a standard stream: docs say 'must be omitted', the "
                     "statement says 'refused'; the value changes nothing")
         return ("accept", {"cls": "stream", "stream": STD[path]})
+    if (old_files or 0) < 0 or (interval or 0) < 0 or (max_size or 0) < 0:
+        return ("unjudged", "negative size or count for a file")
 
     rotation = bool(max_size) or bool(when)
     if rotation and not old_files:
